@@ -12,6 +12,7 @@ import (
 type commitLimitIter struct {
 	sourceIter   CommitIter
 	limitOptions LogLimitOptions
+	done         bool
 }
 
 // LogLimitOptions defines limits for log traversal.
@@ -30,19 +31,30 @@ func NewCommitLimitIterFromIter(commitIter CommitIter, limitOptions LogLimitOpti
 }
 
 func (c *commitLimitIter) Next() (*Commit, error) {
+	if c.done {
+		return nil, io.EOF
+	}
 	for {
 		commit, err := c.sourceIter.Next()
 		if err != nil {
 			return nil, err
 		}
 
-		if c.limitOptions.Since != nil && commit.Committer.When.Before(*c.limitOptions.Since) {
+		// The tail commit ends the walk whether or not it is inside the
+		// time window; otherwise the commits below it would be returned.
+		isTail := c.limitOptions.TailHash == commit.Hash
+		if isTail {
+			c.done = true
+		}
+
+		if (c.limitOptions.Since != nil && commit.Committer.When.Before(*c.limitOptions.Since)) ||
+			(c.limitOptions.Until != nil && commit.Committer.When.After(*c.limitOptions.Until)) {
+			if isTail {
+				return nil, io.EOF
+			}
 			continue
 		}
-		if c.limitOptions.Until != nil && commit.Committer.When.After(*c.limitOptions.Until) {
-			continue
-		}
-		if c.limitOptions.TailHash == commit.Hash {
+		if isTail {
 			return commit, storer.ErrStop
 		}
 		return commit, nil
